@@ -96,7 +96,7 @@ def run_shard(spec, col: Collector):
 def make_plan(prop, emphasis, salt):
     def plan(tier, seed, scale=1.0):
         q = tier == "quick"
-        n, copies, mt = (500, 16, 16) if q else (6000, 16, 40)
+        n, copies, mt = (500, 16, 16) if q else (15000, 16, 40)
         return [dict(shard=f"s{c}", n=int(n * scale), prop=prop, emphasis=emphasis, max_tasks=mt, budget_s=60 if q else 900, timeout_s=180 if q else 1500,
                      hash_seed=(seed * salt + c * 7919 + 1) % 4294967295) for c in range(copies)]
     return plan
